@@ -407,3 +407,51 @@ Print Assumptions C05_write_read_teletext_ignore.
 Print Assumptions C05_rewrite_keeps_timecodes_open.
 Print Assumptions C05_rewrite_keeps_timecodes_teletext.
 Print Assumptions C05_example_document_teletext.
+
+(* ---- OUTSIDE the proviso "text lies in the Latin repertoire and fits" (audit N9b): observations, computed on the model and
+   compared with the library byte for byte on the same pinned cases (harness/stl_outside.go: stl.encode_text.outside,
+   stl.write.outside, stl.read.outside).  Not fidelity statements: they record what WriteToSTL does with input the property
+   excludes, all of it WITHOUT an error:
+   - a code point outside the repertoire is written as its low byte (U+0416 -> 0x16, U+1F600 -> 0x00, U+20AC -> 0xAC which reads
+     back as the left arrow, U+4E2D -> 0x2D which reads back as "-");
+   - a cue whose encoded text is longer than 112 bytes is cut at 112 bytes;
+   - the file written for U+0416 under display standard "0" is rejected by the library's own reader (a byte below 0x20 in an
+     open-subtitling text field: C05_read_rendered_needs_no_control); under the default standard it is read and the character
+     is gone.
+   C07 does not enforce "representable" either: a conversion into STL of text outside the repertoire goes through this. *)
+From Astisub Require Import Proofs.StlOutside.
+Example C05_outside_low_byte :
+  encode_text_stl out_zhe = [22]%N /\ encode_text_stl out_grin = [0]%N /\ encode_text_stl out_euro = [172]%N /\
+  encode_text_stl out_zhong = [45]%N /\ encode_text_stl ([97]%N ++ out_zhe ++ [98]%N) = [97; 22; 98]%N /\
+  text_faithful out_zhe = false /\ text_faithful out_grin = false.
+Proof. exact outside_low_byte. Qed.
+Example C05_outside_long_line_cut :
+  match write_stl out_now None [out_item (repeat 120%N 130)] with
+  | Ok f => length f = 1152%nat /\ skipn (1024 + 16) f = repeat 120%N 112 /\
+            match read_stl false f with
+            | Ok d => map (fun it => map (map ru_text) (ri_lines it)) (rd_items d) = [[[repeat 120%N 112]]]
+            | _ => False
+            end
+  | _ => False
+  end.
+Proof. exact outside_long_line_cut. Qed.
+Example C05_outside_unreadable_open :
+  match write_stl out_now (out_md [48]%N) [out_item ([97]%N ++ out_zhe ++ [98]%N)] with
+  | Ok f => nth (1024 + 17) f 0%N = 22%N /\ read_stl false f = Err EParse
+  | _ => False
+  end.
+Proof. exact outside_unreadable_open. Qed.
+Example C05_outside_lost_teletext :
+  match write_stl out_now None [out_item ([97]%N ++ out_zhe ++ [98]%N)] with
+  | Ok f => nth (1024 + 17) f 0%N = 22%N /\
+            match read_stl false f with
+            | Ok d => map (fun it => map (map ru_text) (ri_lines it)) (rd_items d) = [[[[97; 98]%N]]]
+            | _ => False
+            end
+  | _ => False
+  end.
+Proof. exact outside_lost_teletext. Qed.
+Print Assumptions C05_outside_low_byte.
+Print Assumptions C05_outside_long_line_cut.
+Print Assumptions C05_outside_unreadable_open.
+Print Assumptions C05_outside_lost_teletext.
